@@ -1,11 +1,15 @@
 package s0367
 
+type G2 struct {
+	F0x2x0 uint32
+}
+
 type G1 struct {
-	F1x0 *int64
+	F0x0 *int32
+	F0x1 []int64
+	F0x2 *G2
 }
 
 type T struct {
-	F0 *int32
-	F1 []G1
-	F2 *uint32
+	F0 *G1
 }
